@@ -51,6 +51,8 @@ def run(ctx):
     ctx.do(rule_sets_and_numbers)
     ctx.do(rule_copy_complete)
     ctx.do(rule_distinct_bindings)
+    from .hidden_state import rule_no_hidden_state
+    ctx.do(rule_no_hidden_state, "C09.history-independence")
 
 
 def producers(prog):
